@@ -11,6 +11,7 @@ Machine, (b) templates over a dynamic predicate f/1 (assertz/asserta/retract/ret
 side effects, throwing after side effects) whose or-tree the model computes from the database.
 """
 import re
+import time
 from .. import core, diff
 
 LEVEL = "proof"
@@ -46,6 +47,9 @@ PURE = [
     ("sort([c,a,b,a], L).", "L"), ("number_chars(N, \"42\").", "N"), ("sub_atom(abc, B, 1, A, S).", "B,A,S"),
     ("member(X, [1,2,3]), member(Y, [a,b]), X >= 2.", "X,Y"), ("between(1, 4, X), X mod 2 =:= 0.", "X"),
     ("catch((member(X,[1,2,3]), X >= 2, throw(t(X))), t(Y), true).", "X,Y"),
+    # variable-free queries with several solutions (the `LeafAnswer::True` branch of next)
+    ("(true ; true).", ""), ("member(a, [a,b,a]).", ""), ("(true ; fail).", ""), ("(true ; throw(x)).", ""),
+    ("member(a, [a,b,a,c]).", ""),
 ]
 PRE = ["use_module(library(lists)).", "use_module(library(between)).", "use_module(library(dif)).", "use_module(library(iso_ext))."]
 FULL = 60   # "ask until None" (no stream in the check has more items)
@@ -108,9 +112,7 @@ class Voc:
             cases.append(["R\tb_r%d" % qi] + ["Q\tb_p%d_%d\t1\t%s" % (qi, j, p) for j, p in enumerate(PRE)]
                          + ["Q\tb_q%d\t%d\t%s" % (qi, FULL, q)])
         res = core.run_impl_parallel(cases)
-        for qi in range(len(PURE)):      # retry under load
-            if res.get("b_q%d" % qi, "timeout") == "timeout":
-                res.update(core.run_impl(cases[qi]))
+        self.retried, self.failing = run_robust(cases, res)
         self.stream = {qi: items_of(res.get("b_q%d" % qi, "missing")) for qi in range(len(PURE))}
         self.tok = {}
         self.enc = {}
@@ -135,6 +137,48 @@ class Voc:
         return [it if it == "false" else self.tok.get((qi, it), it) for it in items]
 
 
+RETRY_REASONS = []
+
+
+def setup_problem(lines, res, setup_only=False):
+    """Reasons to re-run a case: a line timed out / is missing / the process aborted / a Rust panic was reported
+    (under heavy machine load the 10 s harness watchdog can fire inside `use_module`, and thread or process
+    creation can fail with EAGAIN), or a set-up line (library import / consult) did not succeed, after which
+    the case's queries would run without their libraries. Genuine panics are deterministic and survive the
+    re-runs; they are then judged like any other result."""
+    for l in lines:
+        i = core.line_id(l)
+        r = res.get(i, "missing")
+        is_setup = (l.startswith("Q\t") and re.search(r"_p\d+(_\d+)?$", i)) or l.startswith("L\t") or l.startswith("R\t")
+        if not setup_only and (r in ("timeout", "missing") or r.startswith("abort(") or r.startswith("panic(") or r.startswith("skipped(")):
+            return "%s: %s" % (i, r[:80])
+        if is_setup:
+            want = "true" if l.startswith("Q\t") else ("loaded" if l.startswith("L\t") else "reset")
+            if not r.startswith(want):
+                return "%s: %s" % (i, r[:80])
+    return None
+
+
+def run_robust(cases, res):
+    """re-run (sequentially, up to twice) the cases with a problem (see setup_problem); returns
+    (number of re-runs, [(case, problem)] whose SET-UP still fails)."""
+    retried, failing = 0, []
+    for c in cases:
+        lines = c["impl"] if isinstance(c, dict) else c
+        prob = setup_problem(lines, res)
+        n = 0
+        while prob and n < 2:
+            RETRY_REASONS.append(prob)
+            res.update(core.run_impl(lines))
+            retried += 1
+            n += 1
+            prob = setup_problem(lines, res)
+        prob = setup_problem(lines, res, setup_only=True)
+        if prob:
+            failing.append((c, prob))
+    return retried, failing
+
+
 def items_of(result):
     return [a for a in result.split(" ;; ") if a != "..."] if result else []
 
@@ -149,9 +193,10 @@ def hist_enc(hist, voc):
     return "|".join("%d:%s" % (k, enc(q, voc)) for q, k in hist)
 
 
-def setup_lines(cid, db):
+def setup_lines(cid, db, pre=PRE):
+    """a fresh Machine holding the database `db` (the libraries the queries need are loaded first)."""
     prog = ":- dynamic(f/1).\\n" + "".join("f(%d).\\n" % v for v in db)
-    return ["R\t%s_r" % cid] + ["Q\t%s_p%d\t1\t%s" % (cid, j, p) for j, p in enumerate(PRE)] + ["L\t%s_l\tuser\t%s" % (cid, prog)]
+    return ["R\t%s_r" % cid] + ["Q\t%s_p%d\t1\t%s" % (cid, j, p) for j, p in enumerate(pre)] + ["L\t%s_l\tuser\t%s" % (cid, prog)]
 
 
 # ---------------------------------------------------------------- generator
@@ -268,7 +313,10 @@ def findall_expect(vs, answers):
 def run(ctx):
     rng, tier = ctx["rng"], ctx["tier"]
     rep = diff.replay_case(ctx)
+    del RETRY_REASONS[:]
+    t0 = time.time()
     voc = Voc()
+    t1 = time.time()
     findings = []
 
     # ---- histories
@@ -281,7 +329,7 @@ def run(ctx):
             if "hist" in c and "db0" in c:
                 hs.append((c["db0"], c["hist"]))
         hs += [(d, h) for d, h in FIXED]
-        n = 70 if tier == "quick" else 1200
+        n = 55 if tier == "quick" else 400
         for _ in range(n):
             hs.append(gen_history(rng, voc))
 
@@ -314,7 +362,7 @@ def run(ctx):
                 iso.setdefault((qkey(q), tuple(db_before[(i, j)])), q)
     iso_keys = sorted(iso, key=repr)
     # O2 on a sample of the pairs (each needs one more fresh machine)
-    fa_max = 60 if tier == "quick" else 1500
+    fa_max = 50 if tier == "quick" else 600
     fa_keys = set(iso_keys) if len(iso_keys) <= fa_max or rep is not None else set(rng.sample(iso_keys, fa_max))
     cases, iso_model = [], []
     for n_, key in enumerate(iso_keys):
@@ -323,9 +371,9 @@ def run(ctx):
         text = render(q)
         vs = qvars(q)
         tmpl = "vv(%s)" % vs if vs else "vv"
-        cases.append({"id": cid, "impl": setup_lines(cid, db) + ["Q\t%s_q\t%d\t%s" % (cid, FULL, text), "Q\t%s_d\t2\tfindall(X, f(X), L)." % cid]})
+        cases.append({"id": cid, "impl": setup_lines(cid, db, PRE[:1]) + ["Q\t%s_q\t%d\t%s" % (cid, FULL, text), "Q\t%s_d\t2\tfindall(X, f(X), L)." % cid]})
         if key in fa_keys:
-            cases.append({"id": cid + "f", "impl": setup_lines(cid + "f", db) + ["Q\t%s_f\t3\tfindall(%s, (%s), L)." % (cid, tmpl, text[:-1])]})
+            cases.append({"id": cid + "f", "impl": setup_lines(cid + "f", db, PRE[:1]) + ["Q\t%s_f\t3\tfindall(%s, (%s), L)." % (cid, tmpl, text[:-1])]})
         iso_model.append("spec\t%s_s\t%s\t%d:%s" % (cid, csv(db), FULL, enc(q, voc)))
     # the vocabulary's findall cross-check (database independent)
     for qi, (text, vs) in enumerate(PURE):
@@ -337,12 +385,14 @@ def run(ctx):
     for i, (db0, hist) in enumerate(hs):
         cid = "h%d" % i
         cases.append({"id": cid, "impl": setup_lines(cid, db0) + ["Q\t%s_%d\t%d\t%s" % (cid, j, k, render(q)) for j, (q, k) in enumerate(hist)]})
+    t2 = time.time()
     impl, _ = diff.run_cases(cases)
-    retried = 0
-    for c in cases:
-        if any(impl.get(core.line_id(l)) == "timeout" for l in c["impl"]):
-            impl.update(core.run_impl(c["impl"]))
-            retried += 1
+    t3 = time.time()
+    retried, failing = run_robust(cases, impl)
+    retried += voc.retried
+    for c, prob in failing + [({"impl": c}, prob) for c, prob in voc.failing]:
+        findings.append(core.Finding("disagreement", {"family": "embed-setup", "problem": prob},
+                                     "setting up a fresh Machine (library import / consult of the f/1 facts) failed three times", {"lines": c["impl"][:12]}))
     iso_spec = core.run_model(iso_model) if iso_model else {}
 
     total = agree = 0
@@ -483,5 +533,7 @@ def run(ctx):
         "histories_sensitive_to_drop_discard": sens_drop,
         "query_kinds": kinds,
         "retried": retried,
+        "retry_reasons": RETRY_REASONS[:10],
+        "phase_seconds": {"vocabulary": round(t1 - t0, 1), "model": round(t2 - t1, 1), "implementation": round(t3 - t2, 1), "impl_lines": sum(len(c["impl"]) for c in cases)},
         "findings": findings,
     }
